@@ -180,7 +180,7 @@ def ngaps(B, n):
     return 0 if n <= 0 else ngaps(B, n - 1) + (1 if B[n - 1][1] + 1 < B[n][0] else 0)
 
 
-contract(C + "junctions_from_blocks", {"sorted_blocks": IVS}, returns=IVS, props=["C19", "C03"],
+contract(C + "junctions_from_blocks", {"sorted_blocks": IVS}, returns=IVS, props=["C19", "C03", "C14"],
          requires=["WFinner(sorted_blocks)"],
          locals={"junctions": IVS},
          # the junctions are exactly the gaps between consecutive blocks, in order: the k-th gap sits at index k
